@@ -16,7 +16,8 @@ Line == Trace[l]
 \* a label is explained by the current line: same event, same instant, every field of the label present and equal
 Match(lab) ==
   /\ lab.ev # "-" /\ l <= Len(Trace) /\ Line.ev = lab.ev /\ Line.t = now
-  /\ \A f \in DOMAIN lab \ {"nx", "ev"} : f \in DOMAIN Line /\ Line[f] = lab[f]
+  \* (a listener of a policy instance that sits at several layers of the stack cannot tell which layer called it: L = -1)
+  /\ \A f \in DOMAIN lab \ {"nx", "ev"} : f \in DOMAIN Line /\ (Line[f] = lab[f] \/ (f = "L" /\ Line[f] = -1))
 
 TraceReset ==
   /\ l <= Len(Trace) /\ Line.ev = "Config"
